@@ -726,6 +726,39 @@ def run(ctx):
         if file_hash(stem + '.' + ext) != h1:
             ctx.violation(dict(call='persist', args=[ext, 'plain', 'same'], oracle='bytes', extra_data_dict=True),
                           "saving the unchanged model again changes the text file")
+    # ---- C03_resave_stable / C03_resave_loaded on the implementation: with a user extra_data dict the SECOND and
+    #      the THIRD save of the same object are byte-identical, and so are the first two saves of a LOADED model
+    #      (whatever format it was loaded from)
+    for ext in ('yml', 'json'):
+        wbq = wbgen.gen_workbook(rng, ncells=5, pool=wbgen.CLEAN_POOL)
+        comp = ExcelCompiler(excel=wbq.to_openpyxl())
+        for i in wbq.cells():
+            comp.evaluate(wbq.nodes[i]['addr'])
+        comp.extra_data = {'note': 1, 'z': 'x: y'}
+        stem = os.path.join(ctx.work, 'thrice')
+        case = dict(call='persist', args=[ext, 'plain', 'same'], oracle='bytes-stable')
+        try:
+            comp.to_file(stem, file_types=(ext,))
+            comp.to_file(stem, file_types=(ext,))
+            h2 = file_hash(stem + '.' + ext)
+            comp.to_file(stem, file_types=(ext,))
+            ctx.count(('thrice', ext), kind='resave-stable')
+            if file_hash(stem + '.' + ext) != h2:
+                ctx.violation(dict(case, leg='third save'),
+                              "the third save of the unchanged model differs from the second (C03_resave_stable)")
+            for src in ('yml', 'json', 'pkl'):
+                comp.to_file(stem, file_types=(src,))
+                loaded = ExcelCompiler.from_file(stem + '.' + src)
+                stem2 = os.path.join(ctx.work, 'thrice_loaded')
+                loaded.to_file(stem2, file_types=(ext,))
+                g1 = file_hash(stem2 + '.' + ext)
+                loaded.to_file(stem2, file_types=(ext,))
+                ctx.count(('loaded-twice', src, ext), kind='resave-loaded')
+                if file_hash(stem2 + '.' + ext) != g1:
+                    ctx.violation(dict(case, leg='loaded twice', source=src),
+                                  "saving a loaded model twice gives different files (C03_resave_loaded)")
+        except Exception as exc:      # noqa: BLE001
+            ctx.violation(case, f"repeated save raises {type(exc).__name__}: {exc}"[:200])
     # ---- extra_data survives
     wb = wbgen.gen_workbook(rng, ncells=6, pool=wbgen.CLEAN_POOL)
     for ext in ('yml', 'json', 'pkl'):
